@@ -85,6 +85,7 @@ pub struct Tally {
     pub nokey: u64,
     pub inner: u64,
     pub after_slip: u64,
+    pub marks_only: u64,
     pub c: HashMap<&'static str, (u64, u64)>,
 }
 impl Tally {
@@ -95,11 +96,23 @@ impl Tally {
             e.1 += 1;
         }
     }
+    pub fn merge_from(&mut self, o: &Tally) {
+        self.events += o.events;
+        self.lists += o.lists;
+        self.untypeable += o.untypeable;
+        self.marks_only += o.marks_only;
+        for (k, (a, b)) in &o.c {
+            let e = self.c.entry(k).or_insert((0, 0));
+            e.0 += a;
+            e.1 += b;
+        }
+    }
     pub fn flush(&self, out: &mut Out) {
         out.count("evaluations", self.events);
         out.count("lists_judged", self.lists);
         out.count("words_without_single_code_point_keys_skipped", self.nokey);
         out.count("texts_with_punctuation_inside_the_word", self.inner);
+        out.count("compositions_of_marks_only", self.marks_only);
         out.count("words_typed_after_an_aborted_composition_of_waiting_signs", self.after_slip);
         out.count("texts_composed_differently_than_meant", self.untypeable);
         for (k, (ch, nv)) in &self.c {
@@ -311,6 +324,12 @@ impl Prop for C15 {
         let rev = lo.reverse();
         // the number-pad decimal key (all contexts have the number-pad option on)
         let dot: Option<FKey> = keys().iter().find(|k| k.name == "VC_KP_DECIMAL").filter(|k| lo.value(k.code, 0, true) == Some(".")).map(|k| (k.code, 0u8, '.'));
+        // every number-pad key whose layout value is the ASCII mark the key is labelled with (. + - * /)
+        let pad_marks: Vec<(char, FKey)> = keys().iter().filter(|k| k.numpad).filter_map(|k| {
+            let ch = k.ch?;
+            (ch.is_ascii_punctuation() && lo.value(k.code, 0, true) == Some(ch.to_string().as_str())).then_some((ch, (k.code, 0u8, ch)))
+        }).collect();
+        out.max("number_pad_marks_typed_inside_words", pad_marks.len() as u64);
         let mut marks: Vec<(char, FKey)> = rev.iter().filter(|(c, _)| c.is_ascii_punctuation() || matches!(**c, '।' | '॥' | '\u{200C}' | '\u{200D}' | '৳' | '÷' | '×')).map(|(c, k)| (*c, *k)).collect();
         marks.sort();
         out.max("marks_typed_inside_words", marks.len() as u64);
@@ -323,6 +342,39 @@ impl Prop for C15 {
                 return;
             }
         };
+        let mut t = Tally::default();
+        // compositions without any word: every mark the layout can type alone, every ordered pair of marks, and some marks
+        // inside brackets / quotes (the first candidate is the composed text, nothing repeats, the raw keys come last when
+        // English is on and they differ from what they composed)
+        {
+            let mut t0 = Tally::default();
+            let mut texts: Vec<Vec<(char, FKey)>> = vec![];
+            for &(c, k) in &marks {
+                texts.push(vec![(c, k)]);
+                for &(c2, k2) in &marks {
+                    texts.push(vec![(c, k), (c2, k2)]);
+                }
+            }
+            let find = |ch: char| marks.iter().find(|(c, _)| *c == ch).copied();
+            if let (Some(lp), Some(rp), Some(q)) = (find('('), find(')'), find('"')) {
+                for &(c, k) in &marks {
+                    texts.push(vec![lp, (c, k), rp]);
+                    texts.push(vec![q, (c, k), q]);
+                }
+            }
+            for (i, tx) in texts.iter().enumerate() {
+                if !env.mine(i) {
+                    continue;
+                }
+                let keys: Vec<FKey> = tx.iter().map(|(_, k)| *k).collect();
+                let target: String = tx.iter().map(|(c, _)| *c).collect();
+                let (sess, mirror) = &sessions[i % sessions.len()];
+                out.begin_case(|| case_json(&sess.spec, &keys, keys.len()));
+                t0.marks_only += 1;
+                type_and_judge(&o, sess, mirror, &keys, &target, out, &mut t0);
+            }
+            t.merge_from(&t0);
+        }
         let mut words: Vec<&String> = o.tables.values().flatten().collect();
         words.sort();
         words.dedup();
@@ -336,7 +388,6 @@ impl Prop for C15 {
         out.max("words_occurring_more_than_once_in_the_data", repeated.len() as u64);
         let step = env.tier.pick(12, 1);
         let per = env.tier.pick(1, 4);
-        let mut t = Tally::default();
         let mut n = 0usize;
         for (wi, w) in words.iter().enumerate() {
             if wi % step != (env.seed as usize) % step && !repeated.contains(*w) {
@@ -390,14 +441,17 @@ impl Prop for C15 {
                 if cs.len() >= 2 {
                     let cut = 1 + (n / 4) % (cs.len() - 1);
                     // every mark the layout can type (ASCII punctuation, danda, ZWNJ ...), the number-pad full stop every fourth time
-                    let (p, pk) = if (n / 8) % 4 == 0 { ('.', dot) } else { let (c, k) = marks[(n / 8) % marks.len()]; (c, Some(k)) };
+                    // (rotations by the word's index among the words of this run, which differs from shard to shard, with periods
+                    // 8 (context), 3 (number pad or main block) and the number of marks: every combination comes up)
+                    let u = wi / step;
+                    let (p, pk) = if u % 3 == 0 && !pad_marks.is_empty() { let (c, k) = pad_marks[(u / 3) % pad_marks.len()]; (c, Some(k)) } else if u % 3 == 0 { ('.', dot) } else { let (c, k) = marks[(u / 3) % marks.len()]; (c, Some(k)) };
                     let head: String = cs[..cut].iter().collect();
                     let tail: String = cs[cut..cs.len().min(cut + 2)].iter().collect();
                     if let (Some(a), Some(pk), Some(b)) = (keys_for(&rev, &head), pk, keys_for(&rev, &tail)) {
                         let mut keys = a;
                         keys.push(pk);
                         keys.extend(b);
-                        let (sess, mirror) = &sessions[(n / 4) % 8];
+                        let (sess, mirror) = &sessions[(wi / step) % 8];
                         out.begin_case(|| case_json(&sess.spec, &keys, keys.len()));
                         t.inner += 1;
                         type_and_judge(&o, sess, mirror, &keys, &format!("{head}{p}{tail}"), out, &mut t);
